@@ -17,6 +17,8 @@ def run(ctx):
     stream.r_pair(ctx, P)
     stream.wrapper_finishers(ctx, P)
     stream.error_states(ctx, P)
+    from rules import c03
+    c03.sticky_errors(ctx, P)
     stream.tee_writer(ctx, P)
     stream.fill_loops(ctx, P)
     # every consumer path of Message ends through the trailing-data check (read / read_to_end / fill_buf agree)
